@@ -86,10 +86,13 @@ theorem wName_printable (ver : Ver) (e : Enc) (ha : AsciiOk e) (l : List Nat) (h
 /-- the DOCTYPE written by the first start tag, on characters (the root name is ASCII: `m_writer.write(name)` of the
 transcoding writer goes unit by unit) -/
 theorem doctype_enc (c : Cfg) (ha : AsciiOk c.enc) (hP : Printable c.doctypePublic) (hY : Printable c.doctypeSystem)
-    (n : List Nat) (hN : Ascii n) :
+    (n : List Nat) (hN : Ascii n) (hL : ∀ x ∈ n, legalChar c.ver x = true) :
     ∃ d, doctypeItems c (utf16Encode n) = .ok d ∧ unitsOf d = encodeOut c.enc.kind (absDoctype c n) ∧ Ascii (absDoctype c n) := by
   obtain ⟨_, _, _, _, s5, s6, s7⟩ := prolog_strings c.enc
   obtain ⟨_, _, _, _, a5, a6, a7⟩ := ascii_consts
+  have hck : checkBulk c.enc n = .ok () := by
+    have := checkBulk_legal c.ver c.enc n hL
+    rwa [utf16Encode_ascii n hN] at this
   rw [utf16Encode_ascii n hN]
   unfold doctypeItems absDoctype
   cases hw : c.doctypeSystem.isEmpty with
@@ -113,7 +116,7 @@ theorem doctype_enc (c : Cfg) (ha : AsciiOk c.enc) (hP : Printable c.doctypePubl
         (if c.doctypePublic.isEmpty = true then wConst c.enc (dtSystem c.enc)
          else wConst c.enc (dtPublic c.enc) ++ p ++ wChar c.enc 34 ++ wChar c.enc 32 ++ wChar c.enc 34) ++ s ++
         wChar c.enc 34 ++ wChar c.enc 62 ++ nl, ?_, ?_, hA⟩
-    · simp only [hnn, bind, Except.bind]
+    · simp only [hck, hnn, bind, Except.bind]
       cases c.doctypePublic.isEmpty <;> simp [hp, hs, hnl, Except.bind, pure, Except.pure]
     · rw [encodeOut_ascii _ _ hA]
       simp only [unitsOf_append, s5, s6, s7, wConst_ascii c.enc ha _ a5, hnu, hsu, hnlu,
@@ -288,10 +291,10 @@ theorem absNode_elem_shape (ver : Ver) (ce : Nat → Bool) (xhtml : Bool) (n : L
         exact ⟨aa ++ (if xhtml = true then [32] else []) ++ [47, 62], by rw [← h]; simp⟩
 
 theorem doctype_enc' (c : Cfg) (ha : AsciiOk c.enc) (hP : Printable c.doctypePublic) (hY : Printable c.doctypeSystem)
-    (n : List Nat) (hN : c.doctypeSystem.isEmpty = false → Ascii n) :
+    (n : List Nat) (hN : c.doctypeSystem.isEmpty = false → Ascii n) (hL : ∀ x ∈ n, legalChar c.ver x = true) :
     ∃ d, doctypeItems c (utf16Encode n) = .ok d ∧ unitsOf d = encodeOut c.enc.kind (absDoctype c n) ∧ Ascii (absDoctype c n) := by
   cases hw : c.doctypeSystem.isEmpty with
-  | false => exact doctype_enc c ha hP hY n (hN hw)
+  | false => exact doctype_enc c ha hP hY n (hN hw) hL
   | true =>
     refine ⟨[], by simp [doctypeItems, hw, pure, Except.pure], ?_, ?_⟩
     · simp only [absDoctype, hw, ↓reduceIte]; cases c.enc.kind <;> rfl
